@@ -128,6 +128,71 @@ class Acct:
             return l
         return l
 
+    def resolve_place(self, pl, depth=14):
+        """A place with field / downcast projections -> the operand that was stored there, following the
+        definitions in force on the current path: aggregates (struct, tuple, enum variant), copies,
+        references and `?` on an Option / Result. Returns an operand with as few projections as could
+        be resolved (the place itself if nothing applies)."""
+        def is_f(e):
+            return isinstance(e, dict) and "f" in e
+
+        def is_dc(e):
+            return isinstance(e, dict) and "dc" in e
+        for _ in range(depth):
+            p = list(pl["p"])
+            if not any(isinstance(x, dict) for x in p):
+                break
+            d = self.whole_def(pl["l"])
+            if d is None:
+                break
+            if d[0] == "call":
+                t = d[3]
+                if re.search(r"Try>::branch$|ops::Try::branch$", callee_name(t)) and len(p) >= 2 and is_dc(p[0]) and str(p[0]["dc"]) == "Continue" and is_f(p[1]) and t.get("args"):
+                    apl = t["args"][0].get("c") or t["args"][0].get("m")
+                    ty = (self.b.locals[apl["l"]].get("ty") or "") if apl is not None and not apl["p"] else ""
+                    v = "Some" if ty.startswith("std::option::Option<") else "Ok" if ty.startswith("std::result::Result<") else None
+                    if v is None:
+                        break
+                    pl = {"l": apl["l"], "p": [{"dc": v}, {"f": "0"}] + p[2:]}
+                    continue
+                break
+            rv = d[3]["rv"]
+            if rv["k"] in ("ref", "rawptr") and p and p[0] == "deref":
+                pl = {"l": rv["place"]["l"], "p": list(rv["place"]["p"]) + p[1:]}
+                continue
+            if rv["k"] == "use":
+                src = rv["op"].get("c") or rv["op"].get("m")
+                if src is None:
+                    break
+                pl = {"l": src["l"], "p": list(src["p"]) + p}
+                continue
+            if rv["k"] == "agg" and rv.get("agg") in ("adt", "tuple"):
+                q = p
+                if is_dc(q[0]):
+                    if rv.get("agg") != "adt" or str(rv.get("variant")) != str(q[0]["dc"]):
+                        break
+                    q = q[1:]
+                if not q or not is_f(q[0]):
+                    break
+                f = str(q[0]["f"])
+                names = [str(n) for n in (rv.get("fields") or [])]
+                if names and f in names:
+                    k = names.index(f)
+                elif not names and f.isdigit():
+                    k = int(f)
+                else:
+                    break
+                if k >= len(rv["ops"]):
+                    break
+                op = rv["ops"][k]
+                opl = op.get("c") or op.get("m")
+                if opl is None:
+                    return op if not q[1:] else {"c": pl}
+                pl = {"l": opl["l"], "p": list(opl["p"]) + q[1:]}
+                continue
+            break
+        return {"c": pl}
+
     def op_const(self, op):
         k = op.get("k")
         if isinstance(k, dict):
@@ -146,6 +211,12 @@ class Acct:
         pl = op.get("c") or op.get("m")
         if pl is None:
             raise Undecidable("string operand is not a place")
+        if any(isinstance(x, dict) for x in pl["p"]) and self.place_key(pl) not in roots:
+            op2 = self.resolve_place(pl)
+            c = self.op_const(op2)
+            if isinstance(c, str):
+                return lin(len(c.encode()))
+            pl = op2.get("c") or op2.get("m")
         if any(isinstance(x, dict) for x in pl["p"]):
             return self.place_sym_len(pl, roots)
         return self.str_len_local(pl["l"], roots)
@@ -259,6 +330,12 @@ class Acct:
         if pl is None:
             raise Undecidable("numeric operand")
         if any(isinstance(x, dict) for x in pl["p"]):
+            op2 = self.resolve_place(pl)
+            c = self.op_const(op2)
+            if isinstance(c, int):
+                return lin(c)
+            pl = op2.get("c") or op2.get("m")
+        if any(isinstance(x, dict) for x in pl["p"]):
             # `_34.0` of a checked operation, `(_8 as Some).0`, a field
             base = self.root(pl["l"])
             d = self.whole_def(base)
@@ -330,6 +407,10 @@ class Acct:
         an aggregate (followed through copies and tuple fields)"""
         for _ in range(depth):
             d = self.whole_def(l)
+            if d is not None and d[0] == "call" and re.search(r"FromResidual<.*>>::from_residual$|FromResidual::from_residual$", callee_name(d[3])):
+                # `?` on a None / Err: the value built from the residual is None / Err again
+                ty = self.b.locals[l].get("ty") or ""
+                return 0 if ty.startswith("std::option::Option<") else 1 if ty.startswith("std::result::Result<") else None
             if d is None or d[0] != "stmt":
                 return None
             rv = d[3]["rv"]
@@ -406,6 +487,20 @@ class Acct:
                 continue
             if t["k"] == "call":
                 nm = callee_name(t)
+                if re.search(r"std::string::String as std::iter::Extend<.*>>::extend$", nm) and len(t["args"]) == 2 and util.base_local(b, t["args"][0]) == result_local:
+                    # `s.extend(repeat_n(' ', n))`: n copies of a constant char
+                    pl = t["args"][1].get("c") or t["args"][1].get("m")
+                    d = self.whole_def(self.root(pl["l"])) if pl is not None and not pl["p"] else None
+                    if d is None or d[0] != "call" or not re.search(r"iter::repeat_n$", callee_name(d[3])) or len(d[3]["args"]) != 2:
+                        raise Undecidable("`extend` by something other than `repeat_n(<char>, n)`")
+                    c = self.op_const(d[3]["args"][0])
+                    if isinstance(c, str) and len(c) == 1:
+                        c = ord(c)
+                    if not isinstance(c, int):
+                        raise Undecidable("`extend` by copies of a non-constant char")
+                    w = len(chr(c).encode())
+                    cnt = self.num_op(d[3]["args"][1], roots)
+                    total = ladd(total, {k: v * w for k, v in cnt.items()})
                 if re.search(r"std::string::String::(push_str|push)$", nm) and t["args"]:
                     if util.base_local(b, t["args"][0]) == result_local:
                         if nm.endswith("::push"):
@@ -442,6 +537,8 @@ class Acct:
                 d = self.whole_def(src)
                 if d and d[0] == "stmt" and d[3]["rv"]["k"] == "discr":
                     dp = d[3]["rv"]["place"]
+                    if any(isinstance(x, dict) for x in dp["p"]):
+                        dp = self.resolve_place(dp)["c"]
                     if not any(isinstance(x, dict) for x in dp["p"]):
                         kv = self.known_variant(dp["l"])
                         if kv is not None:
@@ -615,7 +712,6 @@ def normaliser_report(ctx, body):
                     out.append((False, "one iteration of the piece loop pushes %s bytes for a piece of len(piece) bytes" % lshow(total)))
             if n_ok:
                 out.append((True, "every iteration pushes len(piece) (%d feasible path(s))" % n_ok))
-            loop_len = A.str_len_op(S_op, roots)
         rets = [x for x in cfg.reachable if b.blocks[x]["term"] and b.blocks[x]["term"]["k"] == "return"]
 
         def full_paths():
